@@ -118,6 +118,26 @@ def keyStr : Key → Except Err String
   | .str s => .ok s
   | .tuple _ => .error .typeError
 
+/-! ### the text layer, for the values standard JSON has no token for
+  `J` abstracts the JSON text (`json.loads ∘ json.dumps` is the identity on `J`); for the non-finite floats that identity is NOT
+  part of RFC 8259 but a CPython convention, so it is modelled: the encoder (`float.__repr__` is bypassed, `json.encoder.floatstr`)
+  writes `NaN` / `Infinity` / `-Infinity`, the scanner (`json.scanner`, `parse_constant` default) reads exactly these three
+  constants back.  Tied to the interpreter's json module on every run (case kind `tokens`). -/
+
+/-- the token `json.dumps(allow_nan=True)` writes for a non-finite float (`none`: written as an ordinary number) -/
+def nonFiniteToken : Flt → Option String
+  | .nan => some "NaN"
+  | .inf false => some "Infinity"
+  | .inf true => some "-Infinity"
+  | .fin _ _ | .negZero => none
+
+/-- `json.loads`: the constants of the scanner -/
+def parseConstant (tok : String) : Option Flt :=
+  if tok = "NaN" then some .nan
+  else if tok = "Infinity" then some (.inf false)
+  else if tok = "-Infinity" then some (.inf true)
+  else none
+
 /-- `json.dumps` on a float, with the `allow_nan` argument the call in `state_to_json` really passes
     (`Generated.C11.dumpsAllowNan`, read off the source on every run; CPython's default is `True`). -/
 def dumpFlt (f : Flt) : Except Err J :=
